@@ -19,9 +19,14 @@ import (
 //	bigvalue/<n>   the same with ONE string of n bytes (a single Arrow buffer of that size)
 //	bigrandom/<n>  the same with an incompressible string of n bytes (a payload of that size on the wire)
 //	haul/<n>, haulwide/<n>   a long-haul batch of n items (haulInput)
+//	keyed/<key>/<salt>   three items whose resource, scope and item attributes use the key <key> (keyedInput)
 //	complex/<n>/<salt>/<items>   items whose body / attribute is a MAP value that serialises to about n bytes (complexInput)
 func synthInput(signal, synth string) (Input, error) {
 	kind, arg, _ := strings.Cut(synth, "/")
+	if kind == "keyed" {
+		key, salt, _ := strings.Cut(arg, "/")
+		return keyedInput(signal, key, salt), nil
+	}
 	if kind == "complex" {
 		var n, salt, items int
 		if _, err := fmt.Sscanf(arg, "%d/%d/%d", &n, &salt, &items); err != nil || n < 0 || items < 0 {
@@ -238,6 +243,52 @@ func complexInput(signal string, n, salt, items int) Input {
 			dp := m.SetEmptyGauge().DataPoints().AppendEmpty()
 			dp.SetIntValue(int64(i))
 			fill(dp.Attributes().PutEmpty("m"), i)
+		}
+	}
+	return in
+}
+
+// keyedInput builds a small batch in which the resource, the scope and every
+// item carry one attribute under the given key (value "v<salt>").
+func keyedInput(signal, key, salt string) Input {
+	in := Input{Signal: signal}
+	put := func(m pcommon.Map) { m.PutStr(key, "v"+salt) }
+	switch signal {
+	case Traces:
+		in.Traces = ptrace.NewTraces()
+		rs := in.Traces.ResourceSpans().AppendEmpty()
+		put(rs.Resource().Attributes())
+		ss := rs.ScopeSpans().AppendEmpty()
+		put(ss.Scope().Attributes())
+		for i := 0; i < 3; i++ {
+			sp := ss.Spans().AppendEmpty()
+			sp.SetName("keyed" + strconv.Itoa(i))
+			put(sp.Attributes())
+			put(sp.Events().AppendEmpty().Attributes())
+		}
+	case Logs:
+		in.Logs = plog.NewLogs()
+		rl := in.Logs.ResourceLogs().AppendEmpty()
+		put(rl.Resource().Attributes())
+		sl := rl.ScopeLogs().AppendEmpty()
+		put(sl.Scope().Attributes())
+		for i := 0; i < 3; i++ {
+			l := sl.LogRecords().AppendEmpty()
+			l.Body().SetStr("keyed" + strconv.Itoa(i))
+			put(l.Attributes())
+		}
+	default:
+		in.Metrics = pmetric.NewMetrics()
+		rm := in.Metrics.ResourceMetrics().AppendEmpty()
+		put(rm.Resource().Attributes())
+		sm := rm.ScopeMetrics().AppendEmpty()
+		put(sm.Scope().Attributes())
+		for i := 0; i < 3; i++ {
+			m := sm.Metrics().AppendEmpty()
+			m.SetName("keyed" + strconv.Itoa(i))
+			dp := m.SetEmptyGauge().DataPoints().AppendEmpty()
+			dp.SetIntValue(int64(i))
+			put(dp.Attributes())
 		}
 	}
 	return in
